@@ -162,5 +162,6 @@ class VhdxSuite(ReaderSuite):
 
 SUITES = {"vhdx": VhdxSuite()}
 
-from harness.readers import under_O  # noqa: E402
+from harness.readers import under_O, under_debug  # noqa: E402
 SUITES["vhdx_pyO"] = under_O(SUITES["vhdx"])
+SUITES["vhdx_dbg"] = under_debug(SUITES["vhdx"])
